@@ -38,12 +38,15 @@ def gen_case(rng, big):
     meta = []          # (sys, ndim) per slot
     nbase = int(rng.integers(1, 4))
     first = None
+    shared = bool(rng.random() < 0.4)       # constructor inputs alias each other / are reused between grids
     for k in range(nbase):
-        if first is not None and rng.random() < 0.5:
+        if first is not None and rng.random() < (0.5 if not shared else 0.75):
             # a near twin of the first grid: same shape, one thing changed
             spec = twin_of(rng, first)
         else:
             spec = G.gen_spec(rng, maxn=maxn)
+            if shared:
+                G.make_shared(rng, spec)
         if first is None:
             first = spec
         ops.append(['new', spec])
@@ -82,7 +85,7 @@ def gen_case(rng, big):
             ops.append([op, i])
             if op == 'reversed':
                 meta.append(meta[i])
-    return {'ops': ops}
+    return {'ops': ops, 'shared': shared}
 
 
 def twin_of(rng, spec):
@@ -147,20 +150,21 @@ def observe(grids):
     return {'snaps': snaps, 'eq': eq, 'hash': hashes}
 
 
-def apply_real(grids, op):
+def apply_real(grids, op, pool=None, shared=False):
     """Apply one op to the list of live hcipy grids. Returns status string."""
     import hcipy
     kind = op[0]
     try:
         if kind == 'new':
-            grids.append(G.build(op[1]))
+            grids.append(G.build(op[1], pool))
         elif kind == 'rt':
             grids.append(G.roundtrip(grids[op[1]], op[2]))
         elif kind == 'rebuild':
             s = G.snap(grids[op[1]])
             spec = {'sys': s['sys'], 'kind': s['kind'], 'data': s['data'], 'w': s['w'], 'int': False}
             spec['int'] = bool(op[2]) and G.spec_integral(spec)
-            grids.append(G.build(spec))
+            spec['shared'] = bool(shared)
+            grids.append(G.build(spec, pool))
         elif kind in ('scaled', 'scale'):
             a = op[2][1] if op[2][0] == 's' else np.array(op[2][1])
             import warnings
@@ -191,6 +195,12 @@ def apply_real(grids, op):
     return 'ok'
 
 
+def model_op_lines(op, pool):
+    if op[0] == 'new':
+        return G.new_lines('C10', op[1], pool)
+    return [model_op_line(op)]
+
+
 def model_op_line(op):
     kind = op[0]
     if kind == 'new':
@@ -209,10 +219,12 @@ def model_op_line(op):
 def run_real(case):
     grids = []
     steps = []
+    pool = G.Pool()
     for op in case['ops']:
         before = [G.snap(g) for g in grids]
-        status = apply_real(grids, op)
-        steps.append({'op': op, 'status': status, 'before': before, 'obs': observe(grids)})
+        status = apply_real(grids, op, pool, case.get('shared', False))
+        steps.append({'op': op, 'status': status, 'before': before, 'obs': observe(grids), 'caller_changed': pool.changed(),
+                      'pool': [a.tolist() for a in pool.arrays], 'pool_keys': list(pool.keys)})
         if status != 'ok':
             break       # later ops refer to slots that may not exist; the history ends here
     return steps
@@ -250,6 +262,9 @@ def oracle(steps):
     bad = []
     for st in steps:
         op, status, obs, before = st['op'], st['status'], st['obs'], st['before']
+        if st.get('caller_changed'):
+            bad.append(('caller-array-changed', "%s changed an array owned by the caller (array %r is now %r)" % (
+                op[0], list(st['pool_keys'][st['caller_changed'][0]])[:6], st['pool'][st['caller_changed'][0]][:6])))
         snaps = obs['snaps']
         n = len(snaps)
         ids = [G.ident(s) for s in snaps]
@@ -324,6 +339,16 @@ def oracle(steps):
     return out
 
 
+def aliased(spec):
+    """does the constructor receive one array object more than once?"""
+    if not spec.get('shared') or spec.get('int'):
+        return False
+    arrs = [tuple(a) for a in (spec['data'] if spec['kind'] != 'reg' else [spec['data'][0], spec['data'][2]])]
+    if isinstance(spec['w'], list):
+        arrs.append(tuple(spec['w']))
+    return len(set(arrs)) < len(arrs)
+
+
 def lens(s):
     if s['kind'] == 'reg':
         return s['data'][1]
@@ -366,6 +391,28 @@ def same_data(want, got):
 def S(sysm, kind, data, w=None, integer=False):
     return {'sys': sysm, 'kind': kind, 'data': data, 'w': w, 'int': integer}
 
+
+def SH(sysm, kind, data, w=None):
+    d = S(sysm, kind, data, w)
+    d['shared'] = True
+    return d
+
+
+AX = [0.0, 1.0, 3.0]
+DIRECTED_SHARED = [
+    # one array object for both axes of a square separated grid; copies; in-place and copying ops
+    {'shared': True, 'ops': [['new', SH('c', 'sep', [AX, AX])], ['scaled', 0, ['s', 2.0]], ['rt', 0, 'copy'], ['scale', 2, ['v', [2.0, 0.5]]],
+                             ['shift', 0, [1.0, 0.0]], ['scale', 0, ['s', 2.0]], ['rebuild', 0, False], ['reverse', 0]]},
+    {'shared': True, 'ops': [['new', SH('c', 'uns', [AX, AX, AX], AX)], ['scaled', 0, ['s', 2.0]], ['shift', 0, [1.0, 0.0, 0.5]], ['scale', 0, ['v', [2.0, 1.0, -1.0]]],
+                             ['rt', 0, 'pickle'], ['reverse', 0]]},
+    # delta and zero are one array; a second grid is built from the same arrays
+    {'shared': True, 'ops': [['new', SH('c', 'reg', [[0.5, 0.5], [3, 2], [0.5, 0.5]])], ['new', SH('p', 'reg', [[0.5, 0.5], [3, 2], [0.5, 0.5]])],
+                             ['scale', 0, ['s', 2.0]], ['shift', 0, [1.0, 1.0]], ['scaled', 1, ['s', 2.0]], ['reverse', 1]]},
+    # two grids share axes and the weights array
+    {'shared': True, 'ops': [['new', SH('c', 'sep', [AX, [0.0, 2.0]], [1.0, 2.0, 3.0, 4.0, 5.0, 6.0])], ['new', SH('c', 'sep', [AX, [0.0, 2.0]], [1.0, 2.0, 3.0, 4.0, 5.0, 6.0])],
+                             ['new', SH('c', 'uns', [[1.0, 2.0, 3.0, 4.0, 5.0, 6.0], [0.0, 0.0, 0.0, 1.0, 1.0, 1.0]], [1.0, 2.0, 3.0, 4.0, 5.0, 6.0])],
+                             ['scale', 0, ['s', 2.0]], ['reverse', 1], ['scaled', 2, ['v', [2.0, 3.0]]], ['shift', 1, [1.0, 1.0]]]},
+]
 
 DIRECTED = [
     # ragged separated grid: reflexivity, copies (D2)
@@ -433,11 +480,14 @@ def model_requests(case):
 def run(ctx):
     ctx.rule = ('histories over a store of live grids: 1-3 base grids (Cartesian/polar; regular/separated incl. ragged/'
                 'unstructured; 1-3 D; dyadic values; optional twin differing in exactly one of system/kind/value/size/weights/'
-                'dtype), then copy / to_dict+from_dict / pickle round trips, independent reconstruction (optionally with '
+                'dtype; in 40 % of the cases the constructor inputs come from a pool of caller-owned arrays in which equal arrays are ONE '
+                'object: same array for several axes, for delta and zero, for weights and a coordinate column, for several grids), '
+                'then copy / to_dict+from_dict / pickle round trips, independent reconstruction (optionally with '
                 'integer dtype), scaled/shifted/reversed and their in-place forms. After EVERY operation all live grids are '
                 're-read: snapshots (aliasing), the full == matrix, and all hashes. Oracle: == must coincide with identity of '
                 '(system, kind, coordinate arrays) read from the objects; reflexive/symmetric/transitive; equal => same hash; '
-                'hash never raises; untouched grids keep their snapshot; the mutated grid has the specified new coordinates. '
+                'hash never raises; untouched grids keep their snapshot; the mutated grid has the specified new coordinates (each axis '
+                'acted on exactly once); no array owned by the caller ever changes. '
                 'Model: same ops on the Lean store; `show`, `eqrow` compared; hash(g) must equal xxh64 of the model hash input. '
                 'Non-trivial = at least two live grids; distinct by (op sequence, kinds present, number of equal pairs).')
     ctx.assumptions += ['coordinates are finite floats (no NaN/inf)', 'xxhash is deterministic and collision-free on the inputs met',
@@ -445,7 +495,7 @@ def run(ctx):
                         'scale on a Cartesian separated grid with an axis of fewer than two points and no stored weights raises IndexError '
                         '(automatic weights undefined) and is treated as outside the quantifier']
     n = ctx.scale(2500, 20000)
-    cases = [(c, 'directed') for c in DIRECTED]
+    cases = [(c, 'directed') for c in DIRECTED + DIRECTED_SHARED]
     for k in range(n):
         cases.append((gen_case(ctx.rng, big=(ctx.tier == 'thorough' and k % 4 == 0)), 'random'))
     all_lines = []
@@ -455,10 +505,11 @@ def run(ctx):
         lines = ['C10 reset']
         marks = []
         nlive = 0
+        mpool = G.Pool()
         for st in steps:
             op = st['op']
-            m = {'op': len(lines)}
-            lines.append(model_op_line(op))
+            lines += model_op_lines(op, mpool)
+            m = {'op': len(lines) - 1}
             nlive = len(st['obs']['snaps'])
             m['show'] = len(lines)
             lines += ['C10 show %d' % k for k in range(nlive)]
@@ -468,6 +519,12 @@ def run(ctx):
             lines += ['C10 hash %d' % k for k in range(nlive)]
             m['n'] = nlive
             marks.append(m)
+        if mpool.keys:
+            marks[-1]['arrs'] = len(lines)
+            marks[-1]['mpool'] = mpool
+            lines.append('C10 arrs')
+            ctx.count('cases-with-caller-arrays')
+            ctx.count('aliased-constructor-inputs', sum(1 for op in case['ops'] if op[0] == 'new' and aliased(op[1])))
         plan.append((case, steps, len(all_lines), marks))
         all_lines += lines
     out = ctx.model(all_lines)
@@ -509,6 +566,14 @@ def run(ctx):
                     break
             if stop:
                 break
+            if 'arrs' in m:
+                # the caller's arrays: the model never changes them; the real ones must still hold the same values
+                model_arrs = G.parse_rat_lists(out[base + m['arrs']].split(' ', 1)[1])
+                real = {k: v for k, v in zip(st['pool_keys'], st['pool'])}
+                for key, marr in zip(m['mpool'].keys, model_arrs):
+                    if key in real and [float(x) for x in marr] != [float(x) for x in real[key]]:
+                        ctx.disagree('C10 caller arrays', {'case': case, 'array': list(key)[:8], 'impl': real[key][:8]})
+                        break
     ctx.extra['hash_tie_skipped_inexact'] = inexact
 
 
